@@ -310,7 +310,11 @@ def job_blanks(jc):
     inp = {"seqs": [[core.SymNum(z3.Int(f"s{i}_{j}")) for j in range(n)] for i, n in enumerate(shape)]}
 
     def body():
-        seqs = [tuple(core.integer(f"s{i}_{j}", 0x1F000, 0x1FFFF) for j in range(n)) for i, n in enumerate(shape)]
+        lo, hi = jc.params.get("range", (0x1F000, 0x1FFFF))
+        seqs = [tuple(core.integer(f"s{i}_{j}", lo, hi) for j in range(n)) for i, n in enumerate(shape)]
+        for s in seqs:
+            for c in s:
+                core.assume(core.SymBool(z3.Or(c.t < 0xD800, c.t > 0xDFFF)))
         ufo = RecUfo()
         GI = type("GI", (), {})
         gis = []
@@ -452,6 +456,9 @@ def jobs(tier):
     # blanks
     for sh in [(1,), (2,), (1, 2), (1, 1), (3,), (1, 1, 1)] + ([(1, 3), (2, 2)] if tier != "quick" else []):
         js.append(Job(f"blanks[{sh}]", job_blanks, shape=sh))
+    # ... over every scalar value above U+0020 (variation selectors, tags, plane 16 included), small shapes
+    for sh in [(2,), (1, 1)] + ([(1, 2), (3,)] if tier != "quick" else []):
+        js.append(Job(f"blanks[{sh},all scalar values]", job_blanks, shape=sh, range=(0x21, 0x10FFFF)))
     # advance
     for h in (10, 24, 36, 70, 100, 128, 1000) if tier == "quick" else (7, 10, 24, 36, 64, 70, 100, 128, 136, 512, 1000, 1024):
         for kind in ("fn", "svg", "bitmap"):
